@@ -140,6 +140,7 @@ func Preorder(str string, visitor Visitor, opts *VisitorOptions) error {
 type traverser struct {
 	parser  Parser
 	visitor Visitor
+	depth   int
 }
 
 // NOTE: keep in sync with (*Parser).Parse method.
@@ -162,9 +163,21 @@ func (self *traverser) decodeValue() error {
 		return self.visitor.OnInt64(val.Iv,
 			json.Number(self.parser.s[val.Ep:self.parser.p]))
 	case types.V_ARRAY:
-		return self.decodeArray()
+		if self.depth >= types.MAX_RECURSE {
+			return types.ERR_RECURSE_EXCEED_MAX
+		}
+		self.depth++
+		err := self.decodeArray()
+		self.depth--
+		return err
 	case types.V_OBJECT:
-		return self.decodeObject()
+		if self.depth >= types.MAX_RECURSE {
+			return types.ERR_RECURSE_EXCEED_MAX
+		}
+		self.depth++
+		err := self.decodeObject()
+		self.depth--
+		return err
 	default:
 		return types.ParsingError(-val.Vt)
 	}
